@@ -167,3 +167,143 @@ class GetSection(Contract):
 
 
 CONTRACTS = [AssertIdentifier(), ResolveHeaders(), GetSection(), C19.GetHeaderValue()]
+
+
+# ------------------------------------------------------------------------------------------ operations validation
+VALIDATION_ERRORS = z3.Const("validation_errors", V.Val)
+
+
+class _Doc:
+    pass
+
+
+V.REG.register(_Doc, ["definitions"])
+V.REG.register(G.GraphQLError, ["message"], build=lambda message="err": G.GraphQLError(message if isinstance(message, str) else "err"))
+
+
+GQL_ERRORS = ListOf(Cls(G.GraphQLError, message=Str), name="all_gql_errors")
+
+
+def _install_models():
+    def load(I, a, k):
+        I.p.effect("read_files", a[0])
+        return SV(z3.Const("queries_text", V.Val))
+
+    def parse(I, a, k):
+        return Obj(_Doc, {"definitions": SV(z3.Const("queries_definitions", V.Val))})
+
+    def validate(I, a, k):
+        kw = dict(k)
+        I.p.effect("validate", dict(schema=kw.get("schema", a[0] if a else None), rules=kw.get("rules")))
+        return SV(VALIDATION_ERRORS)
+    models.NATIVE[SCH.load_graphql_files_from_path] = load
+    models.NATIVE[SCH.parse] = parse
+    models.NATIVE[SCH.validate] = validate
+
+
+_install_models()
+
+
+class GetGraphqlQueries(Contract):
+    """get_graphql_queries: the document is validated under the full specified rule set except NoUnusedFragments (the one
+    documented relaxation), and InvalidOperationForSchema is raised iff validation reports errors."""
+    props = ("C17", "C02")
+    target = "ariadne_codegen.schema:get_graphql_queries"
+    trusted = ["graphql-core: validate(schema, document, rules) returns the list of violations of exactly the given rules"]
+    use_at_calls = False
+
+    def setup(self, E):
+        from pyvc.shapes import assume_shape
+        assume_shape(E.p, GQL_ERRORS, VALIDATION_ERRORS)
+        E.ctx.inputs["validation_errors"] = VALIDATION_ERRORS
+        return ["queries.graphql", Obj(G.GraphQLSchema, {})], {}
+
+    def configure(self, ctx):
+        # load_graphql_files_from_path is a repository function: replaced by its effect model here
+        from pyvc.contract import Contract as _C
+
+        class _Load(_C):
+            target = "ariadne_codegen.schema:load_graphql_files_from_path"
+
+            def apply_at_call(self, I, fn, args, kwargs):
+                I.p.effect("read_files", args[0])
+                return SV(z3.Const("queries_text", V.Val))
+        ctx.contracts[("ariadne_codegen.schema", "load_graphql_files_from_path")] = _Load()
+
+    def _rules_ok(self, A):
+        calls = [p for k, p in A["__effects__"] if k == "validate"]
+        if len(calls) != 1:
+            return z3.BoolVal(False)
+        rules = calls[0]["rules"]
+        if rules is None:       # graphql-core default = specified_rules (would include NoUnusedFragments: stricter, still "full")
+            return z3.BoolVal(True)
+        got = list(rules)
+        want = [r for r in G.specified_rules if r is not G.NoUnusedFragmentsRule]
+        return z3.BoolVal(set(got) == set(want) and len(got) == len(want))
+
+    def ensures(self, A, res):
+        return {"validated-under-the-full-rule-set-minus-NoUnusedFragments": self._rules_ok(A),
+                "accepted-only-without-validation-errors": z3.Not(truthy(VALIDATION_ERRORS)),
+                "returns-the-parsed-definitions": res == z3.Const("queries_definitions", V.Val)}
+
+    def on_raise(self, A, exc_cls, exc):
+        if exc_cls is EX.InvalidOperationForSchema:
+            return {"validated-under-the-full-rule-set-minus-NoUnusedFragments": self._rules_ok(A),
+                    "rejected-only-with-validation-errors": truthy(VALIDATION_ERRORS)}
+        return {"typed-error": z3.BoolVal(False)}
+
+    def replay_custom(self, inputs):
+        return replay_validation_rules()
+
+    def samples(self, tier):
+        return [dict()]
+
+
+def replay_validation_rules():
+    """native: every specified rule except NoUnusedFragments must be enforced by get_graphql_queries (one minimal invalid
+    document per rule family that the statement names)"""
+    import os
+    import tempfile
+    rep = dict(inputs={}, failed=[], undetermined=[], pre_ok=True, outcome={}, error=None, cases=[])
+    schema = G.build_schema("type Query { user(id: ID!): User } type User { id: ID! name: String }")
+    docs = {
+        "unknown-field": "query Q { user(id: 1) { nope } }",
+        "unused-variable": "query Q($id: ID!, $first: ID) { user(id: $id) { id } }",
+        "undefined-variable": "query Q { user(id: $id) { id } }",
+        "unknown-fragment": "query Q { user(id: 1) { ...F } }",
+        "missing-required-argument": "query Q { user { id } }",
+        "duplicate-operation-name": "query Q { user(id: 1) { id } } query Q { user(id: 2) { id } }",
+        "scalar-leaf-selection": "query Q { user(id: 1) { id { x } } }",
+    }
+    ok_doc = "query Q { user(id: 1) { id } } fragment Unused on User { name }"
+    d = tempfile.mkdtemp(prefix="pyvc_rules_")
+    try:
+        for name, text in docs.items():
+            p = os.path.join(d, name + ".graphql")
+            open(p, "w").write(text)
+            try:
+                SCH.get_graphql_queries(p, schema)
+                rep["cases"].append(name)
+                rep["outcome"][name] = "accepted"
+            except EX.InvalidOperationForSchema:
+                rep["outcome"][name] = "rejected"
+            except Exception as e:   # noqa
+                rep["cases"].append(name)
+                rep["outcome"][name] = f"{type(e).__name__}"
+        p = os.path.join(d, "ok.graphql")
+        open(p, "w").write(ok_doc)
+        try:
+            SCH.get_graphql_queries(p, schema)
+            rep["outcome"]["unused-fragment-allowed"] = "accepted"
+        except Exception as e:   # noqa
+            rep["cases"].append("unused-fragment-allowed")
+            rep["outcome"]["unused-fragment-allowed"] = type(e).__name__
+    finally:
+        import shutil
+        shutil.rmtree(d, ignore_errors=True)
+    if rep["cases"]:
+        rep["failed"].append("post.validated-under-the-full-rule-set-minus-NoUnusedFragments")
+    return rep
+
+
+CONTRACTS.append(GetGraphqlQueries())
